@@ -76,5 +76,10 @@ def prepare(rp, ce, params):
         if "panic" in out: return True, "real code panics: " + out["panic"][:200]
         got_ok = out.get("result") == "ok"
         if "result" not in out: return False, "no result: " + str(out)[:200]
+        if got_ok and expect_ok:
+            # every op costs 1 and every node runs its straight-line program exactly once: the total is the number of ops
+            want_gas = sum(len([o for o in fields[f"prog{i}"].split(";") if o.strip()]) for i in range(n))
+            if out.get("gas") != str(want_gas):
+                return True, f"gas reported {out.get('gas')}, the nodes' programs execute {want_gas} operations of cost 1"
         return (got_ok != expect_ok), f"reference semantics: {'accept' if expect_ok else 'reject'}; real two-pass check: {out.get('result')} {out.get('err', '')[:160]}"
     return fields, judge
